@@ -5,7 +5,8 @@ PROPS["C06"] = dict(
          "parked on a live key, in-memory only) and expiries +1h/+3h/+100h/already-expired(in-memory only); after an advance the generator "
          "aims the next op at a key whose expiry was just crossed with probability 1/2 and draws its kind uniformly from the nine kinds; the "
          "systematic part plays write x advance x first-touching op x follow-up for every op kind on both backends. An advance never stops "
-         "exactly on an expiry instant. The rediswire unit lets time pass INSIDE one call of the Redis backend: a miniredis whose TTLs are aged by the real clock (catch-up FastForward before every command "
+         "exactly on an expiry instant. The squeeze unit (in-memory backend, real goroutines ordered through the storage mutex) forces 'A's first critical section, all of B, A's next critical section' for A = Get/GetMany/ListKeys/Create/CasByVersion/Delete meeting an expired record "
+         "and B = Put/Create of a fresh record without expiry, and a Put applied between the expiry of a record and the expiry handling of a waiter parked on it: the fresh record must be there afterwards (unless a Delete that ran after it returned nil). The rediswire unit lets time pass INSIDE one call of the Redis backend: a miniredis whose TTLs are aged by the real clock (catch-up FastForward before every command "
          "and observation), the client's connection wrapped so that the k-th command of one put/putmany/create(over a record that lapses or is removed meanwhile)/cas/cas-with-forced-retry call is stalled 200-500 ms "
          "(before forwarding for TTL-free commands, before the reply otherwise; every position enumerated once + drawn pairs); the written records must be readable until 150 ms before their ExpiresAt and gone 150 ms after it "
          "(a failure is confirmed by two re-runs with all durations doubled). non-trivial = the clock crossed an expiry and a later op was the first to touch that key (wire unit: a stall really happened inside the call before its TTL-carrying write); "
